@@ -124,7 +124,7 @@ def build(tier, mutate=None):
     C = BA.copies(mutate)
     R = BA.reals()
     units = []
-    fmts = ["uint8", "uint16"] if tier != "thorough" else list(FORMATS)
+    fmts = ["uint8", "uint16", "int"] if tier != "thorough" else list(FORMATS)
     if tier == "canary":
         fmts = ["uint8"]
     for fmt in fmts:
